@@ -76,6 +76,27 @@ Theorem child_processes_under_the_context :
   command_sites = [("interp.execShell", "CommandContext", "p.checkCtx"); ("interp.execShell", "Command", "!(p.checkCtx)")].
 Proof. reflexivity. Qed.
 
+(* execShell: the Cmd of every child process (system(), cmd | getline, print | cmd) is built by
+   exec.CommandContext under a context and by exec.Command without one, both into the same variable,
+   and WaitDelay is set on EVERY path that returns it: Cmd.Wait then gives up on the output pipes
+   250 ms after the shell has exited (or has been killed by the context), whoever still holds them;
+   that is what makes waits for child processes both prompt under cancellation and identical
+   with and without a context *)
+Theorem exec_shell_sets_waitdelay_on_every_path :
+  forallb (fun r => String.eqb (snd r) "yes") exec_shell_returns = true /\
+  exec_shell_returns <> [] /\
+  exec_shell_makes = [("CommandContext", "cmd"); ("Command", "cmd")] /\
+  waitdelay_writes = [("interp.execShell", "cmd.WaitDelay = 250 * time.Millisecond")].
+Proof. repeat split; try reflexivity. discriminate. Qed.
+
+Theorem exec_shell_source :
+  exec_shell_body =
+  ["executable := p.shellCommand[0]"; "args := p.shellCommand[1:]"; "args = append(args, code)";
+   "var cmd *exec.Cmd";
+   "if p.checkCtx { cmd = exec.CommandContext(p.ctx, executable, args...) } else { cmd = exec.Command(executable, args...) }";
+   "cmd.WaitDelay = 250 * time.Millisecond"; "return cmd"].
+Proof. reflexivity. Qed.
+
 (* the context's error originates in two places only: the poll, and system() whose wait for the
    child failed while the context is done *)
 Theorem context_error_origins :
